@@ -239,6 +239,7 @@ type vNodeSpec struct {
 	members  string   // "none": empty configuration; "all-voters"; "any": every member/voter subset containing self or not
 	dataLen  int      // bytes per entry payload
 	anyTypes bool     // entry types symbolic over {NoOp, Operation}; otherwise all Operation
+	snap     bool     // when the log has a compacted prefix, a visible snapshot labelled with it exists (SnapInv)
 }
 
 type vNode struct {
@@ -379,6 +380,14 @@ func vBuildNode(spec vNodeSpec) *vNode {
 	r.followers = make(map[string]*follower)
 	for id := range r.configuration.Members {
 		r.followers[id] = new(follower)
+	}
+	if spec.snap && base > 0 {
+		vTag(name+".compacted", "true")
+		n.fsm.through = base
+		cfgData, _ := n.tr.EncodeConfiguration(r.configuration)
+		f, _ := n.snaps.NewSnapshotFile(base, baseTerm, cfgData)
+		_ = n.fsm.Snapshot(f)
+		_ = f.Close()
 	}
 	return n
 }
